@@ -7,6 +7,7 @@ import (
 	"go/types"
 	"reflect"
 	"regexp/syntax"
+	"sort"
 	"strconv"
 	"strings"
 
@@ -341,6 +342,59 @@ func r40DecodeTotal(c *core.Ctx) {
 			_ = finfo
 			return true
 		})
+	}
+	// (a') and the outcome of every comma-ok assertion is tested: `v, _ := x.(T)` turns a wrong type into the zero
+	// value, which the code behind it may accept as a legitimate document value
+	for _, f := range decodeFuncs {
+		if f.SSA == nil {
+			continue
+		}
+		var tas []*ssa.TypeAssert
+		for _, fn := range append([]*ssa.Function{f.SSA}, f.SSA.AnonFuncs...) {
+			for _, b := range fn.Blocks {
+				for _, in := range b.Instrs {
+					if ta, ok := in.(*ssa.TypeAssert); ok && ta.CommaOk && ta.Pos().IsValid() {
+						tas = append(tas, ta)
+					}
+				}
+			}
+		}
+		sort.Slice(tas, func(i, j int) bool { return tas[i].Pos() < tas[j].Pos() })
+		for n, ta := range tas {
+			tested := false
+			seen := map[ssa.Value]bool{}
+			var follow func(v ssa.Value, depth int)
+			follow = func(v ssa.Value, depth int) {
+				if v == nil || seen[v] || depth > 8 || v.Referrers() == nil {
+					return
+				}
+				seen[v] = true
+				for _, r := range *v.Referrers() {
+					switch x := r.(type) {
+					case *ssa.If:
+						tested = true
+					case *ssa.UnOp:
+						follow(x, depth+1)
+					case *ssa.BinOp:
+						follow(x, depth+1)
+					case *ssa.Phi:
+						follow(x, depth+1)
+					case *ssa.Store:
+						if x.Val == v {
+							follow(x.Addr, depth+1)
+						}
+					}
+				}
+			}
+			for _, r := range *ta.Referrers() {
+				if e, ok := r.(*ssa.Extract); ok && e.Index == 1 {
+					follow(e, 0)
+				}
+			}
+			// a type switch compiles to comma-ok assertions whose outcome selects the case
+			c.Check(R, fmt.Sprintf("assertion-outcome-tested/%s#%d", f.Name, n+1), ta.Pos(), tested, "the ok result decides a branch",
+				"the ok result of the type assertion to "+ta.AssertedType.String()+" is discarded: a document with a wrong type at this key is decoded as the zero value instead of being rejected")
+		}
 	}
 	// (b) submatch indices within the capture groups of every pattern the slice may come from, and nil-checked
 	groups := map[types.Object]int{} // regexp var -> capture groups
